@@ -20,6 +20,11 @@ Variable O : ops Q.
    when such a value is called (DESIGN.md §7 #2: the implementation rebinds it). *)
 Variable stale : string -> nat -> bool.
 
+(* [lits = (strings, structs)]: whether string literals with parts / struct literals are
+   evaluated at all.  (true, true) is the language; the correctness theorem is proved
+   for the restrictions stated in Props/C09.v, a disabled construct evaluates to Wrong. *)
+Variable lits : bool * bool.
+
 Record fdef : Type := {
   fd_params : list string;
   fd_locals : list (string * expr Q);
@@ -103,6 +108,7 @@ Fixpoint eval (n : nat) (W : world) (vg vn vf : nat) (L : list (string * value Q
       | EScalar q => Ok (VQ q)
       | EBool b => Ok (VBool b)
       | EString parts =>
+          if negb (fst lits) then Wrong else
           bind (evals (fun p : string + (expr Q * option string) =>
                          match p with
                          | inl s => Ok s
@@ -158,6 +164,7 @@ Fixpoint eval (n : nat) (W : world) (vg vn vf : nat) (L : list (string * value Q
             | _ => Wrong
             end)
       | EStruct sname sfields fields =>
+          if negb (snd lits) then Wrong else
           match assoc sname (w_structs W) with
           | Some declared =>
               if list_eqb String.eqb declared sfields && nodupb sfields
@@ -268,5 +275,8 @@ Definition stale_in {Q} (p : program Q) (name : string) (idx : nat) : bool :=
   | None => true
   end.
 
-Definition run_static {Q} (O : ops Q) := run O (fun _ _ => false).
-Definition run_checked {Q} (O : ops Q) (n : nat) (p : program Q) := run O (stale_in p) n p.
+Definition run_static {Q} (O : ops Q) := run O (fun _ _ => false) (true, true).
+Definition run_checked {Q} (O : ops Q) (n : nat) (p : program Q) := run O (stale_in p) (true, true) n p.
+(* the fragment covered by the proof: everything except string literals and struct
+   LITERALS (string/struct values, field access and all other constructs are covered) *)
+Definition run_checked_core {Q} (O : ops Q) (n : nat) (p : program Q) := run O (stale_in p) (false, false) n p.
